@@ -4,6 +4,7 @@ pub mod cmd;
 pub mod dump;
 pub mod reserve;
 pub mod sutoton;
+pub mod entry;
 
 pub fn run_case(f: &[String]) -> String {
     // if let Some(r) = area::run_case(f) { return r; }
@@ -11,5 +12,6 @@ pub fn run_case(f: &[String]) -> String {
     if let Some(r) = reserve::run_case(f) { return r; }
     if let Some(r) = sutoton::run_case(f) { return r; }
     if let Some(r) = cmd::run_case(f) { return r; }
+    if let Some(r) = entry::run_case(f) { return r; }
     format!("UNKNOWN-KIND:{}", f[0])
 }
